@@ -298,7 +298,9 @@ class UnitRegistry:
         }
         # the copy holds what the original holds: default symbols the user
         # modified or removed must not be written over the copied table
-        ret = type(self)(lut=lut, add_default_symbols=False)
+        ret = type(self)(
+            lut=lut, add_default_symbols=False, unit_system=self.unit_system
+        )
         ret._derived_symbols = set(self._derived_symbols or ())
         return ret
 
